@@ -52,7 +52,12 @@ package recovery
 //@   property C04
 //@   at call Seek#1 assert [seek-target] arg_offset == 512*(pipes.RecordSize*record+block) && arg_whence == 0
 //@   property C03
-//@   at call Copy#2 assert [copies-whole-verified-stream] arg_src == verifier && arg_dst == dstFile
+//@   at call Decrypt assert [decrypts-tape-stream] ifaceRef(arg_src) == tr && arg_encryptionFormat == pipes.Encryption
+//@   at call Decompress assert [decompresses-decrypted-stream] arg_src == decryptor && arg_compressionFormat == pipes.Compression
+//@   at call Verify assert [verifies-decompressed-stream] arg_src == decompressor && arg_signatureFormat == pipes.Signature
+//@   ensures [content-complete] result == nil && !preview && hdr.Typeflag != 53 && fiMode(hdrInfoOf(hdr)) & 2401763328 == 0 ==> copied[dstFile] == verifier
+//@   property C06
+//@   ensures [torn-content-reports-error] result == nil && !preview && hdr.Typeflag != 53 && fiMode(hdrInfoOf(hdr)) & 2401763328 == 0 ==> copied[dstFile] == verifier
 //@   property C08
 //@   at call Copy#1 assert [raw-copy-only-for-non-regular] fiMode(hdrInfoOf(hdr)) & 2401763328 != 0
 //@   at call getDst assert [accept-site] hdrVerified[hdr]
